@@ -131,7 +131,9 @@ class SignatureAdapter(Signature):
                     if param.kind == Parameter.KEYWORD_ONLY:
                         # Looks like we have no parameter for this positional
                         # argument
-                        # 'too many positional arguments' forgiven
+                        # 'too many positional arguments' forgiven, but the keyword-only
+                        # parameter itself must still be filled from the keyword arguments
+                        parameters_ex = (param,)
                         break
 
                     if param.kind == Parameter.VAR_POSITIONAL:
